@@ -2,7 +2,11 @@
 import json
 
 from .. import common
+from .. import fam_numeric as fnum
+from .. import fam_pipeline as fp
 from .. import fam_recipe as fr
+from .. import gen_models as gm
+from .. import pipeline as pl
 from ai_edge_quantizer import quantizer
 
 THEOREMS = ["C13.unroll_matches", "C13.registered_policies", "C13.registries_consistent", "C13.skip_accepts",
@@ -16,8 +20,9 @@ def run(ctx):
                 "model vs algorithm_manager.check_op_quantization_config, update-time refusal through Quantizer.update_quantization_recipe, "
                 "and resolution-time skipping under '*'; distinct = distinct lattice points")
     ctx.explanation = ("Decision logic is proved over the regenerated tables (accepted => legal runtime mode for every config, refuse/accept at "
-                       "update time, unrolling verified by kernel evaluation). The interpreter clause (runtime prepares every accepted pair) is "
-                       "runtime behaviour executed by the C01/C06/C07 machinery on generated single-op models, not proved.")
+                       "update time, unrolling verified by kernel evaluation). The interpreter clause (runtime prepares every accepted pair "
+                       "and its outputs track the float model) is runtime behaviour: it is executed for every accepted (algorithm, operator, config) "
+                       "point on a generated model built around that operator (C06/C07 oracles), not proved.")
     common.proof_side(ctx, THEOREMS)
     drv = common.Driver()
     m = drv.ask({"op": "unroll_policy"})
@@ -66,8 +71,64 @@ def run(ctx):
             ctx.fail("'*' rule selected for an unsupported pair (or skipped for a supported one)", {"alg": a, "op": o, "cfg": d, "selected": selected}, "star-vs-check")
         ctx.tag("accepted" if upd else "refused")
     ctx.extra["update_and_star_checked"] = n_upd
+    runtime_half(ctx, drv, accepted)
     drv.close()
     return common.finish(ctx)
+
+
+def runtime_half(ctx, drv, accepted):
+    """every accepted (algorithm, specific operator, config): a generated model built around that operator is quantized
+    with a rule for exactly that operator; the interpreter must prepare and run it and the outputs must track the float
+    model (C06 / C07 oracles). INPUT / OUTPUT pseudo-operators are exercised on a one-op model; '*' and CUSTOM_OP have
+    no operator to build."""
+    interp = pl.Interp()
+    reps = 3 if ctx.tier == "thorough" else 1
+    n = 0
+    skipped = set()
+    try:
+        for (a, o, d), _ in accepted:
+            if o in ("*", "CUSTOM_OP"):
+                skipped.add(o)
+                continue
+            for rep in range(reps):
+                if ctx.left() < 25:
+                    ctx.extra["runtime_truncated_at"] = n
+                    return
+                kinds = [o] if o in gm.Grower.SUPPORTED else [ctx.rng.choice(["FULLY_CONNECTED", "TANH", "ADD"])]
+                for _try in range(20):   # the random graph inputs must have a rank the operator template accepts
+                    mb, info = gm.gen_model(ctx.rng, n_ops=1, n_subgraphs=1, kinds=kinds, p_unsupported=0.0, const_kinds=gm.BENIGN_KINDS,
+                                            allow_dead=0.0)
+                    if o in info["subgraphs"][0]["ops"] or o not in gm.Grower.SUPPORTED:
+                        break
+                if o not in info["subgraphs"][0]["ops"] and o in gm.Grower.SUPPORTED:
+                    ctx.tag("runtime_not_built:" + o)
+                    continue
+                data = gm.random_inputs(mb, ctx.rng, n=1, scale=1.0)
+                cmds = [{"k": "add", "regex": ".*", "operation": o, "cfg": d, "alg": a}]
+                case = fp.Case(mb, info, cmds=cmds, data=data, desc=[(o, a, json.dumps(d, sort_keys=True))])
+                res = fp.run_case(ctx, drv, case, graph_corr=False)
+                n += 1
+                ctx.tag("runtime_" + res["status"])
+                fail = fp.failer(ctx, case, prefix=f"accepted pair ({a}, {o}): ")
+                if res["status"] != "ok":
+                    fail(f"quantization raises {res.get('exc')} at stage {res.get('stage')} although the config was accepted",
+                         f"accepted-then-raises:{o}:{res.get('exc')}")
+                    continue
+                wf = pl.wf_violations(res["out"])
+                if wf:
+                    fail("output model is not well formed: " + wf[0], f"accepted-then-illformed:{o}")
+                    continue
+                r = interp.run(res["out"], {k: v[:1] for k, v in data.items()})
+                ctx.interp_runs += 1
+                if r[0] != "ok":
+                    fail(f"the interpreter does not run the model: {r[0]} {str(r[1])[:160]}", f"accepted-then-rejected-by-runtime:{o}")
+                    continue
+                fnum.compare_float_modes(ctx, interp, case, res, fail)
+                fnum.compare_static(ctx, interp, case, res, fail)
+    finally:
+        interp.close()
+        ctx.extra["runtime_cases"] = n
+        ctx.extra["runtime_skipped_selectors"] = sorted(skipped)
 
 
 def replay(ctx, path):
